@@ -17,6 +17,7 @@ PROPS["C09"] = {
         {"pkg": "nsqd", "hdir": "nsqd", "specs": [
             spec("C09/fifo/K=3", "VerifC09Fifo", {"ops": "xxx"}),
             spec("C09/fifo/put,put,get+2", "VerifC09Fifo", {"prefix": "ppg", "ops": "xx"}),
+            spec("C09/fifo/put,put,reopen+1", "VerifC09Fifo", {"prefix": "ppr", "ops": "x"}),
             spec("C09/fifo/K=4", "VerifC09Fifo", {"ops": "xxxx"}, tier="thorough"),
             spec("C09/fifo/K=5", "VerifC09Fifo", {"ops": "xxxxx"}, tier="thorough")],
          "opts": {"thorough": {"budget_s": 7000}}},
